@@ -3,8 +3,8 @@
 Worlds of 2-6 .rtdc files (token generator; file i carries tokens 20*i+j, so read-back data
 identifies the source file and the maps applied) in four directories (two with a sub directory,
 plus a directory symlink), connected by basin definitions forming arbitrary directed graphs (self
-references, k-cycles, diamonds); run identifiers equal / prefix-extended / unrelated / empty /
-missing, written with raw h5py in every HDF5 string flavour; locations absolute / sibling name /
+references, k-cycles, diamonds); run identifiers equal / prefix-extended / pieces of a substring
+lattice (proper suffix, inner substring, superstring, case variant) / unrelated / empty / missing, written with raw h5py in every HDF5 string flavour; locations absolute / sibling name /
 dangling / URL / spelled relative or absolute paths (`./`, `sub/../`, `../dir/`, symlinked
 directory or file); definitions of type file / remote / internal / unknown with every format
 string (matching or not).  About a fifth of the files are basin-only *relays* (no events of their
@@ -54,11 +54,17 @@ from . import common, gen
 ID = "C14"
 LEAN_MODULES = ["DclabModel.Properties.C14"]
 RULE = ("quick: 6 targeted worlds (remote/internal definition with local path, basin without "
-        "identifier unmapped/mapped, mapped-then-unmapped histories) + 250 seeded random worlds over "
+        "identifier unmapped/mapped, mapped-then-unmapped histories) + 11 identifier-relation worlds "
+        "(one per member of RID_FAMILY = equal, proper prefix, proper suffix, inner substring, three "
+        "superstrings, case variant, unrelated, empty, missing; an unmapped and a mapped basin with "
+        "own features in both directions, data served end to end) + the exhaustive verify_basin "
+        "table over RID_FAMILY x RID_FAMILY x {unmapped, mapped} (242 directly constructed basin "
+        "objects) + 250 seeded random worlds over "
         "2-6 files (20 % basin-only relay files without events, 75 % of those and 10 % of the others "
         "without event count), 0-3 definitions per file drawn from type x format (http / s3 "
         "reachable) x location (incl. spelled paths "
-        "and symlinks) x feature-list x mapping, identifiers from {equal, prefix, unrelated, empty, "
+        "and symlinks) x feature-list x mapping, identifiers from {equal, prefix chain, pieces of a "
+        "substring lattice (suffix, inner, superstring, case variant), unrelated, empty, "
         "missing} x 6 HDF5 string flavours; each world opened as a history of up to 4 local roots, "
         "one RTDC_HTTP root and one RTDC_S3 root in one process; per root the order of ds.basins and "
         "a history of 3 verify_basin calls on up to 4 basin objects, per world 2 directly "
@@ -406,16 +412,67 @@ def describe_world(files):
                          d["map"]) for d in f.defs)) for f in files)
 
 
+#: words whose substring lattice supplies run identifiers in every relation to each other
+RID_WORDS = ["R-a-c", "R-b-c", "Qx-R-a"]
+
+
+def rid_relation(r, b):
+    """relation of a basin's (effective) identifier b to the referrer's identifier r: what
+    `verify_basin` has to tell apart. Only `equal` (and `prefix` for mapped basins) match."""
+    if r is None:
+        return "referrer-missing"
+    if b is None:
+        return "basin-missing"
+    if r == b:
+        return "equal"
+    if r.startswith(b):
+        return "prefix"            # b is a proper prefix of r
+    if r.endswith(b):
+        return "suffix"            # b is a proper suffix of r
+    if b in r:
+        return "inner"             # b occurs inside r, neither at its start nor at its end
+    if b.startswith(r):
+        return "super-prefix"      # r is a proper prefix of b
+    if r in b:
+        return "super"             # r is a proper non-prefix substring of b
+    if r.lower() == b.lower():
+        return "case"
+    return "unrelated"
+
+
+def lattice_rid(rng):
+    """a contiguous piece of one of RID_WORDS (whole word 30 %), sometimes with another case or
+    wrapped into a longer string: two such draws are equal, proper prefix, proper suffix, inner
+    substring, superstring (any side), case variant or unrelated"""
+    w = rng.choice(RID_WORDS)
+    r = rng.random()
+    if r < 0.3:
+        s = w
+    else:
+        i = rng.randrange(len(w))
+        s = w[i:rng.randint(i + 1, len(w))]
+    r = rng.random()
+    if r < 0.08:
+        s = s.swapcase()
+    elif r < 0.14:
+        s = rng.choice(["x" + s, s + "y", "x" + s + "y"])
+    return s
+
+
 def rand_rid(rng, scheme):
     r = rng.random()
     if scheme == "equal":
         return "R"
-    if r < 0.45:
+    if scheme == "lattice" and r < 0.85:
+        return lattice_rid(rng)
+    if r < 0.42:
         return "R"
-    if r < 0.65:
+    if r < 0.60:
         return "R-" + rng.choice("ab")
-    if r < 0.8:
+    if r < 0.72:
         return "R-" + rng.choice("ab") + "-c"
+    if r < 0.80:
+        return lattice_rid(rng)
     if r < 0.88:
         return "Q" + rng.choice("xy")
     if r < 0.92:
@@ -482,7 +539,7 @@ def rand_def(rng, files, i):
 
 def random_world(rng):
     k = rng.choice([2, 3, 3, 4, 4, 5, 6])
-    scheme = rng.choice(["equal", "mixed", "mixed"])
+    scheme = rng.choice(["equal", "mixed", "mixed", "lattice"])
     files = []
     for i in range(k):
         innate = sorted(rng.sample(FEATS, rng.randint(0, 3)))
@@ -553,7 +610,46 @@ def targeted_worlds():
                        "map": None, "name": "h-same"})
         out.append((f"history-{order[0]}{order[1]}", [a, b, x],
                     [(order[0], False), (order[1], False), (order[0], False)]))
+    out += relation_worlds()
     return out
+
+
+#: one identifier per relation to the core word (see rid_relation), both roles are played by
+#: every member: equal, proper prefix, proper suffix, inner substring, superstrings (core at the
+#: start / at the end / inside), case variant, unrelated, empty, missing
+RID_CORE = "Ra-b"
+RID_FAMILY = [RID_CORE, "Ra", "-b", "a-", "Ra-b-c", "xRa-b", "xRa-by", "rA-B", "Qx", "", None]
+
+
+def relation_worlds():
+    """for every member m of RID_FAMILY one world that serves data end to end in both directions:
+    file 0 (core) refers to file 1 unmapped and to file 2 mapped (both with identifier m), file 3
+    (m) refers to file 4 unmapped and to file 5 mapped (both core); every basin has its own
+    feature, so that each of the four decisions is visible in features_basin and in the data"""
+    out = []
+    for n, m in enumerate(RID_FAMILY):
+        rids = [RID_CORE, m, m, m, RID_CORE, RID_CORE]
+        files = [WFile(i, 0, rids[i], [], FLAVOURS[(n + i) % len(FLAVOURS)]) for i in range(6)]
+        for ref, (tgt_same, tgt_map), (fa, fb) in ((0, (1, 2), FEATS[:2]), (3, (4, 5), FEATS[2:])):
+            files[tgt_same].innate, files[tgt_map].innate = [fa], [fb]
+            files[ref].maps[0] = [2, 0, 3, 3]
+            files[ref].defs.append({"type": "file", "format": "hdf5", "locs": [("abs", tgt_same)],
+                                    "feats": [fa], "map": None, "name": f"rel{n}-same"})
+            files[ref].defs.append({"type": "file", "format": "hdf5", "locs": [("rel", tgt_map)],
+                                    "feats": [fb], "map": 0, "name": f"rel{n}-mapped"})
+        out.append((f"id-relation-{n}", files, [(0, False), (3, False)]))
+    return out
+
+
+def family_world():
+    """RID_FAMILY as a world without definitions (every file with a map, so that it can be the
+    referrer of a mapped basin): the ground for the exhaustive verify_basin table"""
+    files = []
+    for n, m in enumerate(RID_FAMILY):
+        f = WFile(n, 0, m, [FEATS[n % len(FEATS)]], FLAVOURS[n % len(FLAVOURS)])
+        f.maps[0] = [1, 1, 0, 2]
+        files.append(f)
+    return files
 
 
 class World:
@@ -1102,13 +1198,21 @@ def verify_probe(ctx, env, world, label):
     except BaseException as e:  # noqa
         ctx.note(f"C14: basin classes not reachable on this tree ({e!r}); direct verify probe skipped"[:200])
         return lines, expect
-    for _ in range(2):
-        i = ctx.rng.randrange(len(world.files))
-        j = ctx.rng.randrange(len(world.files))
+    if label == "id-family":
+        # the whole decision table: every ordered pair of RID_FAMILY, unmapped and mapped
+        n = len(world.files)
+        todo = [(i, j, mp, False, [True, ctx.rng.random() < 0.5, True])
+                for i in range(n) for j in range(n) for mp in (False, True)]
+    else:
+        todo = []
+        for _ in range(2):
+            i = ctx.rng.randrange(len(world.files))
+            j = ctx.rng.randrange(len(world.files))
+            mapped = bool(world.files[i].maps) and ctx.rng.random() < 0.5
+            dangling = ctx.rng.random() < 0.15
+            todo.append((i, j, mapped, dangling, [ctx.rng.random() < 0.65 for _ in range(3)]))
+    for i, j, mapped, dangling, flags in todo:
         fi, fj = world.files[i], world.files[j]
-        mapped = bool(fi.maps) and ctx.rng.random() < 0.5
-        dangling = ctx.rng.random() < 0.15
-        flags = [ctx.rng.random() < 0.65 for _ in range(3)]
         mapping = f"basinmap{sorted(fi.maps)[0]}" if mapped else "same"
         loc = world.root / "nowhere" / "gone.rtdc" if dangling else fj.path
         ref = bn = None
@@ -1144,6 +1248,7 @@ def verify_probe(ctx, env, world, label):
         if any(a and fl for a, fl in zip(answers, flags)) and not (match and not dangling):
             ctx.violation("spec", f"verify_basin accepts a basin of another measurement or an "
                                   f"unavailable one (referrer {rid!r}, basin {rb!r}, "
+                                  f"relation {rid_relation(rid, rb)}, "
                                   f"mapped={mapped}, exists={not dangling}, flags={flags}, "
                                   f"answers={answers})",
                           {"world": label, "referrer": i, "basin": j, "mapped": mapped})
@@ -1155,6 +1260,8 @@ def verify_probe(ctx, env, world, label):
                                   "rids": [fi.rid, fj.rid]}})
         ctx.stat("verify:direct")
         ctx.stat(f"verify:direct:{'match' if match else 'mismatch'}")
+        if not dangling:
+            ctx.stat(f"verify:relation:{rid_relation(rid, rb)}:{'mapped' if mapped else 'same'}")
     return lines, expect
 
 
@@ -1193,6 +1300,7 @@ def all_worlds(ctx):
     """yield (label, files, root)"""
     for label, files, root in targeted_worlds():
         yield label, files, root
+    yield "id-family", family_world(), []
     if ctx.thorough:
         k = 3
         pairs = [(a, b) for a in range(k) for b in range(k)]
